@@ -405,6 +405,18 @@ def direct_float(rng, tier):
             except Exception as e:
                 fails.append(dict(clause='Cholesky_raises_on_spd', signature=f'spd/cond=1e{len(str(cond)) - 1}', error=f'{type(e).__name__}: {e}'[:160]))
         if t < 3: samples.append(dict(shape=shape, m=m, n=n, cond=cond))
+    # RANK-DEFICIENT systems (documented: LSTSQ / PINV return a least-squares solution - the normal equations hold - with default options)
+    for (m_, n_, r_) in ((8, 5, 3), (5, 5, 2), (4, 7, 3)):
+        Ud = torch.randn(2, m_, r_, dtype=torch.float64, generator=g); Vd = torch.randn(2, r_, n_, dtype=torch.float64, generator=g)
+        Ad = Ud @ Vd; bd = torch.randn(2, m_, 1, dtype=torch.float64, generator=g)
+        for name, solver in (('PINV', pp.optim.solver.PINV()), ('LSTSQ', pp.optim.solver.LSTSQ())):
+            try:
+                xd = solver(Ad, bd)
+            except Exception as e:
+                fails.append(dict(clause=f'{name}_raises', signature=f'rank {r_} of {m_}x{n_}', error=f'{type(e).__name__}: {e}'[:160])); continue
+            ne = float((Ad.mT @ (Ad @ xd - bd)).norm() / (Ad.norm() * bd.norm()))
+            if not ne < 1e-9 or not bool(torch.isfinite(xd).all()) or float(xd.norm()) > 1e6 * float(bd.norm()) / float(Ad.norm()):
+                fails.append(dict(clause=f'{name}_least_squares_solution_of_a_rank_deficient_system', signature=f'rank {r_} of {m_}x{n_}', normal_equation_residual=ne, norm_x=float(xd.norm())))
     # square systems that merely LOOK symmetric to a tolerance-based test: badly scaled (entries ~1e-9) or nearly symmetric (asymmetry 1e-6) -
     # PINV's documented default is hermitian=False: the full matrix is used
     for t2 in range(4):
